@@ -4,7 +4,7 @@ from ..modules import REGS, REGHW, REGVARS
 
 
 def run(ctx):
-    if not ctx.build_harness(["c20.go", "c20ctx.go", "c20proc.go", "c20vars.go", "gen_reghw.go"]):
+    if not ctx.build_harness(["c20.go", "c20ctx.go", "c20proc.go", "c20allocn.go", "c20vars.go", "gen_reghw.go"]):
         return
     # Gen.Regs from the compiled reg package; Oracle.RegHW measured now: go tool asm + three decoders
     # + execution of every register write on the host CPU (throw-away module under .work/C20/reghw/probe)
@@ -15,10 +15,10 @@ def run(ctx):
     # the driver (model, tables, acceptors) must build even when a table theorem breaks
     if not ctx.build_driver():
         return
-    if ctx.lake_each(["AvoVerif.Props.C20", "AvoVerif.Props.C20Ctx", "AvoVerif.Props.C20Proc"]):
+    if ctx.lake_each(["AvoVerif.Props.C20", "AvoVerif.Props.C20Ctx", "AvoVerif.Props.C20Proc", "AvoVerif.Props.C20Allocn"]):
         ctx.audit("C20")
     if ctx.tier == "thorough":
-        ctx.leanchecker(["AvoVerif.Props.C20", "AvoVerif.Props.C20Ctx", "AvoVerif.Props.C20Proc"])
+        ctx.leanchecker(["AvoVerif.Props.C20", "AvoVerif.Props.C20Ctx", "AvoVerif.Props.C20Proc", "AvoVerif.Props.C20Allocn"])
     nt = lambda req, resp: not ((req.startswith("spec ") and int(req.split()[1]) >= 128) or req.startswith("id ")
                                 or (req.startswith("lookup") and resp == "nil"))
     ctx.run_corpus("c20", nontrivial=nt)
@@ -50,6 +50,9 @@ def run(ctx):
     floors.update({"tblh": 75, "after": 8000, "accept-after": 4500, "proc:full-stream-after-history": 2, "proc:main-ok:gp": 1,
                    "proc:allocated-ok:1": 3, "proc:allocated-ok:2": 3, "proc:allocated-ok:3": 3, "proc:mutated-accessor-result": 24,
                    "proc:random-operations": 500})
+    # reg.Allocation on partial allocations (c20allocn.go)
+    floors.update({"alook": 4000, "accept-alookup": 2500, "amerge": 400, "alook:physical": 500, "alook:virtual-with-entry": 1500,
+                   "alook:virtual-without-entry": 1200, "alook:virtual-without-entry-index-below-physical-count": 500})
     floors.update({"proc:compiled-ok:" + shape: 1 for shape in ("gp", "vec", "k", "all", "sp", "h8", "k0")})
     floors.update({"ctxh:straddle:" + name: 16 for name in (
         "Function", "TEXT", "Implement", "SignatureExpr", "Signature", "Attributes", "Doc", "Pragma", "Label", "Comment", "AllocLocal",
@@ -101,6 +104,13 @@ def run(ctx):
         "caller sees (kind, rank of the id within the kind, mask) with the state machine of Model/RegCtx.lean (whose only effect on the "
         "collection is Coll.alloc) and acceptor CtxFreshOK on the implementation's own ids per kind (theorems ctx_fresh, ctx_fresh_ok, "
         "ctx_others_irrelevant for ALL histories). "
+        "PARTIAL ALLOCATIONS (alook / accept-alookup / amerge): reg.Allocation.LookupRegister / LookupDefault / LookupRegisterDefault and "
+        "operand.ApplyAllocation (register operand, base of a memory operand) for virtual registers of every kind x spec x index 0..40, 255, 256, "
+        "1000, 65535 and every physical register x allocations that are empty / partial without the id (but with the same index number in "
+        "this and another kind) / with the id mapped to a register with or without that view, to a virtual id, to a pseudo or unknown-kind id "
+        "/ full, + random ones; Allocation.Merge: exact against Model/RegAllocn.lean, acceptor AllocLookupOK (a virtual register without an "
+        "entry is never turned into a physical one; a result IS the register the entry names) — theorems lookupRegister_virtual_unallocated, "
+        "lookupRegister_identity, alloc_lookup_ok_*. "
         "AFTER THE PROCESS WAS USED (tblh / after / accept-after, LAST section of a run): all of the above table / API lines (rows as the families "
         "list them then, every conversion of every register of the clean snapshot incl. the restricted SP views and K0, LookupID, "
         "LookupPhysical grid, virtual -> physical views, with their acceptors) are recomputed after EVERY step of a process history — "
